@@ -144,7 +144,8 @@ func sortedNames(m map[string]string) []string {
 	return ks
 }
 
-var routePatternUniverse = []string{"example.com", "a.example.com", "*.example.com", "example.*", "*", "default", "aXexample.com", "*.test", "corp.test", "b.corp.test", "*.corp.test"}
+var routePatternUniverse = []string{"example.com", "a.example.com", "*.example.com", "example.*", "*", "default", "aXexample.com", "*.test", "corp.test", "b.corp.test", "*.corp.test",
+	"corp.*", "*.tes*"} // "corp.*" and "*.test", "*.tes*" and "*.test": overlapping wildcards of equal length
 
 func genRouteTable(g *gen, c *Cfg, n int) []RouteCfg {
 	var out []RouteCfg
